@@ -10,12 +10,18 @@ use opcua::crypto::{
     legacy_password_encrypt, make_user_name_identity_token, verify_signature_data,
     CertificateStore, KeySize, PrivateKey, RsaPadding, SecurityPolicy, X509,
 };
-use opcua::types::service_types::{SignatureData, UserTokenPolicy, UserTokenType};
-use opcua::types::{ByteString, StatusCode, UAString};
+use opcua::server::config::{ServerConfig, ServerEndpoint, ServerUserToken};
+use opcua::server::prelude::Server;
+use opcua::server::state::ServerState;
+use opcua::sync::RwLock;
+use opcua::types::service_types::{ActivateSessionRequest, MessageSecurityMode, SignatureData, UserNameIdentityToken, UserTokenPolicy, UserTokenType};
+use opcua::types::{ByteString, ExtensionObject, ObjectId, RequestHeader, StatusCode, UAString};
 use openssl::pkey::{PKey, Private, Public};
 use openssl::rsa::Rsa;
 use serde_json::{json, Value};
+use std::collections::BTreeMap;
 use std::path::{Path, PathBuf};
+use std::sync::Arc;
 
 pub fn dispatch(args: &Args, rep: &mut Report) -> bool {
     match args.prop.as_str() {
@@ -130,11 +136,16 @@ fn overhead_of(name: &str) -> usize {
 
 struct C16Keys {
     ids: Vec<Ident>,
+    /// a second identity per key size: certificates whose private key the server under test does not hold
+    others: Vec<Ident>,
 }
 
 impl C16Keys {
     fn get(&self, bits: u64) -> &Ident {
         self.ids.iter().find(|i| i.bits as u64 == bits).unwrap_or(&self.ids[0])
+    }
+    fn other(&self, bits: u64) -> &Ident {
+        self.others.iter().find(|i| i.bits as u64 == bits).unwrap_or(&self.others[0])
     }
 }
 
@@ -462,6 +473,111 @@ fn c16_grid(bits: u32, pad: &str, rng: &mut Rng) -> Vec<Value> {
     out
 }
 
+/// One tampering operation on a ciphertext of whole `ks`-byte blocks; false = unknown operation
+fn apply_ct_op(c: &mut Vec<u8>, op: &str, ks: usize) -> bool {
+    let opname = op.split(':').next().unwrap_or("");
+    match opname {
+        "drop-last-byte" => {
+            c.pop();
+        }
+        "drop-first-byte" => {
+            if !c.is_empty() {
+                c.remove(0);
+            }
+        }
+        "append-byte" => c.push(0x5a),
+        "drop-last-block" => {
+            let l = c.len();
+            c.truncate(l.saturating_sub(ks));
+        }
+        "dup-last-block" => {
+            if c.len() >= ks {
+                let l = c[c.len() - ks..].to_vec();
+                c.extend_from_slice(&l);
+            }
+        }
+        "swap-first-two" => {
+            if c.len() >= 2 * ks {
+                let a = c[..ks].to_vec();
+                let b = c[ks..2 * ks].to_vec();
+                c[..ks].copy_from_slice(&b);
+                c[ks..2 * ks].copy_from_slice(&a);
+            }
+        }
+        "zero-last-block" => {
+            let l = c.len();
+            c[l.saturating_sub(ks)..].iter_mut().for_each(|b| *b = 0);
+        }
+        "ff-last-block" => {
+            let l = c.len();
+            c[l.saturating_sub(ks)..].iter_mut().for_each(|b| *b = 0xff);
+        }
+        "flip" => {
+            let mut it = op.split(':').skip(1);
+            let idx: usize = it.next().and_then(|s| s.parse().ok()).unwrap_or(0);
+            let x: u8 = it.next().and_then(|s| s.parse().ok()).unwrap_or(1);
+            let l = c.len();
+            if l > 0 {
+                c[idx % l] ^= x;
+            }
+        }
+        _ => return false,
+    }
+    true
+}
+
+/// Encrypts crafted plaintext pieces, one after the other, with the real public_encrypt of the identity's
+/// certificate (optionally preceded by a block that decrypts to the empty message). Returns (ciphertext,
+/// concatenated plaintext).
+fn encrypt_pieces(id: &Ident, pad_name: &str, pieces: &[Vec<u8>], empty_first: bool) -> Result<(Vec<u8>, Vec<u8>), String> {
+    let ks = id.bits as usize / 8;
+    let padding = padding_of(pad_name);
+    let mut plain: Vec<u8> = Vec::new();
+    let mut ct: Vec<u8> = Vec::new();
+    if empty_first {
+        let mut buf = vec![0u8; ks];
+        let p = if pad_name == "pkcs1" { openssl::rsa::Padding::PKCS1 } else { openssl::rsa::Padding::PKCS1_OAEP };
+        match id.rsa_pub.public_encrypt(&[], &mut buf, p) {
+            Ok(_) => ct.extend_from_slice(&buf),
+            Err(e) => return Err(format!("cannot build an empty-message block: {}", e)),
+        }
+    }
+    let pubkey = id.cert.public_key().map_err(|_| "certificate without public key".to_string())?;
+    for piece in pieces {
+        let size = pubkey.calculate_cipher_text_size(piece.len(), padding);
+        let mut dst = vec![0u8; size];
+        match catch(|| pubkey.public_encrypt(piece, &mut dst, padding)) {
+            Ok(Ok(n)) => {
+                dst.truncate(n);
+                ct.extend_from_slice(&dst);
+                plain.extend_from_slice(piece);
+            }
+            other => {
+                return Err(format!("public_encrypt of a crafted plaintext failed: {:?}", other.map(|r| r.map_err(|_| "PKeyError"))));
+            }
+        }
+    }
+    Ok((ct, plain))
+}
+
+/// What a decrypted plaintext is, relative to the nonce it is opened under: (length prefix consistent, room for
+/// prefix + nonce, ends with the nonce, root cause class)
+fn plaintext_shape(plain: &[u8], m: &[u8]) -> (bool, bool, bool, &'static str) {
+    let wf = plain.len() >= 4 && u32::from_le_bytes([plain[0], plain[1], plain[2], plain[3]]) as usize + 4 == plain.len();
+    let room = plain.len() >= 4 + m.len();
+    let tail = room && plain.ends_with(m);
+    let root = if !room && wf {
+        if plain.len() < m.len() { "plaintext-shorter-than-nonce" } else { "nonce-would-start-inside-length-prefix" }
+    } else if !wf {
+        "length-prefix-inconsistent"
+    } else if !tail {
+        "nonce-mismatch"
+    } else {
+        "wellformed"
+    };
+    (wf, room, tail, root)
+}
+
 fn decrypt_outcome(r: &Result<Result<String, StatusCode>, PanicInfo>) -> String {
     match r {
         Ok(Ok(_)) => "ok".into(),
@@ -620,43 +736,8 @@ fn c16_case(case: &Value, keys: &C16Keys, rep: &mut Report) {
                     let op = op.as_str().unwrap_or("");
                     let mut c = ct.clone();
                     let opname = op.split(':').next().unwrap_or("").to_string();
-                    match opname.as_str() {
-                        "drop-last-byte" => {
-                            c.pop();
-                        }
-                        "drop-first-byte" => {
-                            c.remove(0);
-                        }
-                        "append-byte" => c.push(0x5a),
-                        "drop-last-block" => c.truncate(c.len() - ks),
-                        "dup-last-block" => {
-                            let l = c[c.len() - ks..].to_vec();
-                            c.extend_from_slice(&l);
-                        }
-                        "swap-first-two" => {
-                            if c.len() >= 2 * ks {
-                                let a = c[..ks].to_vec();
-                                let b = c[ks..2 * ks].to_vec();
-                                c[..ks].copy_from_slice(&b);
-                                c[ks..2 * ks].copy_from_slice(&a);
-                            }
-                        }
-                        "zero-last-block" => {
-                            let l = c.len();
-                            c[l - ks..].iter_mut().for_each(|b| *b = 0);
-                        }
-                        "ff-last-block" => {
-                            let l = c.len();
-                            c[l - ks..].iter_mut().for_each(|b| *b = 0xff);
-                        }
-                        "flip" => {
-                            let mut it = op.split(':').skip(1);
-                            let idx: usize = it.next().and_then(|s| s.parse().ok()).unwrap_or(0);
-                            let x: u8 = it.next().and_then(|s| s.parse().ok()).unwrap_or(1);
-                            let l = c.len();
-                            c[idx % l] ^= x;
-                        }
-                        _ => continue,
+                    if !apply_ct_op(&mut c, op, ks) {
+                        continue;
                     }
                     let multiple = c.len() % ks == 0;
                     let oclass = format!("ctop|{}|{}|{}|{}", bits, pad_name, opname, shape);
@@ -705,54 +786,15 @@ fn c16_case(case: &Value, keys: &C16Keys, rep: &mut Report) {
             let pieces: Vec<Vec<u8>> = case["pieces_hex"].as_array().map(|a| a.iter().map(hexs).collect()).unwrap_or_default();
             let empty_first = case["empty_block_prefix"].as_bool().unwrap_or(false);
             let regular = pieces.len() == 1 && !empty_first;
-            let mut plain: Vec<u8> = Vec::new();
-            let mut ct: Vec<u8> = Vec::new();
-            if empty_first {
-                let mut buf = vec![0u8; ks];
-                let p = if pad_name == "pkcs1" { openssl::rsa::Padding::PKCS1 } else { openssl::rsa::Padding::PKCS1_OAEP };
-                match id.rsa_pub.public_encrypt(&[], &mut buf, p) {
-                    Ok(_) => ct.extend_from_slice(&buf),
-                    Err(e) => {
-                        rep.inconclusive(format!("cannot build an empty-message block: {}", e));
-                        return;
-                    }
-                }
-            }
-            let pubkey = match id.cert.public_key() {
-                Ok(k) => k,
-                Err(_) => {
-                    rep.inconclusive("certificate without public key");
+            let (ct, plain) = match encrypt_pieces(id, &pad_name, &pieces, empty_first) {
+                Ok(x) => x,
+                Err(e) => {
+                    rep.inconclusive(e);
                     return;
                 }
             };
-            for piece in &pieces {
-                let size = pubkey.calculate_cipher_text_size(piece.len(), padding);
-                let mut dst = vec![0u8; size];
-                match catch(|| pubkey.public_encrypt(piece, &mut dst, padding)) {
-                    Ok(Ok(n)) => {
-                        dst.truncate(n);
-                        ct.extend_from_slice(&dst);
-                        plain.extend_from_slice(piece);
-                    }
-                    other => {
-                        rep.inconclusive(format!("public_encrypt of a crafted plaintext failed: {:?}", other.map(|r| r.map_err(|_| "PKeyError"))));
-                        return;
-                    }
-                }
-            }
             let m = &nonce;
-            let wf = plain.len() >= 4 && u32::from_le_bytes([plain[0], plain[1], plain[2], plain[3]]) as usize + 4 == plain.len();
-            let room = plain.len() >= 4 + m.len();
-            let tail = room && plain.ends_with(m);
-            let root = if !room && wf {
-                if plain.len() < m.len() { "plaintext-shorter-than-nonce" } else { "nonce-would-start-inside-length-prefix" }
-            } else if !wf {
-                "length-prefix-inconsistent"
-            } else if !tail {
-                "nonce-mismatch"
-            } else {
-                "wellformed"
-            };
+            let (wf, room, tail, root) = plaintext_shape(&plain, m);
             let class = format!("crafted|{}|{}|{}|{}|n{}|{}", bits, pad_name, root,
                 if regular { "regular" } else { "irregular" }, len_class(m.len()),
                 case["class"].as_str().unwrap_or("").rsplit('|').next().unwrap_or(""));
@@ -788,23 +830,648 @@ fn c16_case(case: &Value, keys: &C16Keys, rep: &mut Report) {
     }
 }
 
-pub fn c16(args: &Args, rep: &mut Report) {
-    let mut ids = Vec::new();
+// ---------------------------------------------------------------------------------------------
+// C16 through the server-side entry point: ServerState::authenticate_endpoint
+// ---------------------------------------------------------------------------------------------
+//
+// The same byte strings (fresh, tampered, raw and crafted ciphertexts, plain passwords) are put into the password
+// field of a UserNameIdentityToken and handed to real servers built by Server::new: one per private key size, and
+// one whose PKI directory is empty, i.e. a server without an application instance certificate and private key
+// (ServerState::server_pkey == None), which is a configuration the repository supports for None endpoints.
+
+// Part 7 algorithm URIs (the repository keeps its copies private)
+const ENC_RSA_15: &str = "http://www.w3.org/2001/04/xmlenc#rsa-1_5";
+const ENC_RSA_OAEP: &str = "http://www.w3.org/2001/04/xmlenc#rsa-oaep";
+const ENC_RSA_OAEP_SHA256: &str = "http://opcfoundation.org/UA/security/rsa-oaep-sha2-256";
+const ENC_UNKNOWN: &str = "http://verif.example/unknown-encryption";
+
+const SRV_HOST: &str = "127.0.0.1";
+const SRV_PORT: u16 = 4855;
+/// which private key the server under test owns
+const SRV_KEYS: [&str; 4] = ["none", "1024", "2048", "4096"];
+/// (user token id, user name, password); "secret" is also the password inside the well formed crafted plaintexts
+const SRV_USERS: [(&str, &str, &str); 3] = [("u_c16", "c16user", "secret"), ("u_c16empty", "c16empty", ""), ("u_c16uni", "c16uni", "P\u{e4}ssw\u{f6}rd-\u{20ac}-\u{1f511}")];
+/// None/None endpoints that differ in the password security policy, i.e. in the policy id a token has to carry
+const SRV_ENDPOINTS: [(&str, Option<&str>); 3] = [("unset", None), ("rsa15", Some("Basic128Rsa15")), ("oaep", Some("Basic256Sha256"))];
+/// (name, encryptionAlgorithm of the token, padding it names)
+const SRV_ALGS: [(&str, Option<&str>, Option<&str>); 6] = [
+    ("null", None, None),
+    ("empty", Some(""), None),
+    ("rsa15", Some(ENC_RSA_15), Some("pkcs1")),
+    ("oaep", Some(ENC_RSA_OAEP), Some("oaep-sha1")),
+    ("oaep256", Some(ENC_RSA_OAEP_SHA256), Some("oaep-sha256")),
+    ("unknown", Some(ENC_UNKNOWN), None),
+];
+
+fn alg_for_padding(pad: &str) -> &'static str {
+    match pad {
+        "pkcs1" => "rsa15",
+        "oaep-sha1" => "oaep",
+        _ => "oaep256",
+    }
+}
+
+fn srv_url(endpoint: &str) -> String {
+    format!("opc.tcp://{}:{}/{}", SRV_HOST, SRV_PORT, endpoint)
+}
+
+struct C16Server {
+    _server: Server,
+    state: Arc<RwLock<ServerState>>,
+    dir: PathBuf,
+    /// user name policy id the server advertises, per endpoint
+    policy_ids: BTreeMap<String, UAString>,
+}
+
+impl Drop for C16Server {
+    fn drop(&mut self) {
+        let _ = std::fs::remove_dir_all(&self.dir);
+    }
+}
+
+impl C16Server {
+    fn new(key: &str, keys: &C16Keys) -> Result<C16Server, String> {
+        let dir = pki::scratch_dir(&format!("c16srv_{}", key));
+        let pki_dir = dir.join("pki");
+        std::fs::create_dir_all(&pki_dir).map_err(|e| e.to_string())?;
+        if key != "none" {
+            let id = keys.get(key.parse::<u64>().map_err(|_| format!("unknown server key {:?}", key))?);
+            let store = CertificateStore::new(&pki_dir);
+            store.ensure_pki_path().map_err(|e| format!("pki path: {}", e))?;
+            for p in [store.own_certificate_path(), store.own_private_key_path()] {
+                if let Some(parent) = p.parent() {
+                    std::fs::create_dir_all(parent).map_err(|e| e.to_string())?;
+                }
+            }
+            std::fs::write(store.own_certificate_path(), &id.der).map_err(|e| e.to_string())?;
+            std::fs::write(store.own_private_key_path(), id.key.private_key_to_pem().map_err(|_| "key pem")?).map_err(|e| e.to_string())?;
+        }
+        let mut user_tokens = BTreeMap::new();
+        for (id, user, pass) in SRV_USERS.iter() {
+            user_tokens.insert(id.to_string(), ServerUserToken::user_pass(*user, *pass));
+        }
+        let ids: Vec<String> = SRV_USERS.iter().map(|u| u.0.to_string()).collect();
+        let mut endpoints = BTreeMap::new();
+        for (name, pwpol) in SRV_ENDPOINTS.iter() {
+            let mut e = ServerEndpoint::new_none(format!("/{}", name), &ids);
+            if let Some(p) = pwpol {
+                e.password_security_policy = Some(p.to_string());
+            }
+            endpoints.insert(name.to_string(), e);
+        }
+        let mut config = ServerConfig::new("verif-c16", user_tokens, endpoints);
+        config.pki_dir = pki_dir;
+        config.create_sample_keypair = false;
+        config.discovery_server_url = None;
+        config.tcp_config.host = SRV_HOST.into();
+        config.tcp_config.port = SRV_PORT;
+        config.discovery_urls = vec![format!("opc.tcp://{}:{}/", SRV_HOST, SRV_PORT)];
+        {
+            use opcua::core::config::Config;
+            if !config.is_valid() {
+                return Err(format!("generated server configuration (key {}) is not valid", key));
+            }
+        }
+        let server = catch(|| Server::new(config)).map_err(|p| format!("Server::new panicked: {}", p.msg))?;
+        let state = server.server_state();
+        let mut policy_ids = BTreeMap::new();
+        {
+            let st = state.read();
+            if st.server_pkey.is_some() != (key != "none") {
+                return Err(format!("server meant to have key {:?} has server_pkey {}", key, if st.server_pkey.is_some() { "Some" } else { "None" }));
+            }
+            let descriptions = st.endpoints(&UAString::from(srv_url("")), &None).unwrap_or_default();
+            for (name, _) in SRV_ENDPOINTS.iter() {
+                let suffix = format!("/{}", name);
+                let pid = descriptions
+                    .iter()
+                    .find(|d| d.endpoint_url.as_ref().ends_with(&suffix))
+                    .and_then(|d| d.find_policy(UserTokenType::UserName))
+                    .map(|p| p.policy_id.clone());
+                match pid {
+                    Some(pid) => {
+                        policy_ids.insert(name.to_string(), pid);
+                    }
+                    None => return Err(format!("server (key {}) does not advertise a user name policy on endpoint {}", key, name)),
+                }
+            }
+        }
+        Ok(C16Server { _server: server, state, dir, policy_ids })
+    }
+}
+
+/// The servers of this process, built when a case first asks for them
+struct C16Servers {
+    map: BTreeMap<String, Result<C16Server, String>>,
+}
+
+impl C16Servers {
+    fn new() -> C16Servers {
+        C16Servers { map: BTreeMap::new() }
+    }
+    fn get(&mut self, key: &str, keys: &C16Keys) -> Result<&C16Server, String> {
+        if !self.map.contains_key(key) {
+            self.map.insert(key.to_string(), C16Server::new(key, keys));
+        }
+        match self.map.get(key).unwrap() {
+            Ok(s) => Ok(s),
+            Err(e) => Err(e.clone()),
+        }
+    }
+}
+
+fn srv_case(key: &str, bits: u32, endpoint: &str, user: &str, alg: &str, to: &str, nonce: Option<&[u8]>, payload: Value, shape: &str) -> Value {
+    json!({"kind": "server", "key": key, "bits": bits, "endpoint": endpoint, "user": user, "alg": alg, "to": to,
+        "nonce_hex": nonce.map(hex), "payload": payload, "class": format!("server|{}|{}|{}", key, alg, shape)})
+}
+
+fn enc_payload(password: &[u8], enc_nonce: &[u8], padding: &str, ct_op: Option<&str>) -> Value {
+    json!({"p": "encrypt", "password_hex": hex(password), "enc_nonce_hex": hex(enc_nonce), "padding": padding, "ct_op": ct_op})
+}
+
+fn bytes_payload(b: Option<&[u8]>) -> Value {
+    json!({"p": "bytes", "hex": b.map(hex)})
+}
+
+/// The fixed part of the server workload. Every hostile input of the helper-level grid is presented to the server that
+/// owns the matching key and to the server without a key; then, per server, every encryption algorithm label is
+/// combined with plain, well made, mislabelled, foreign and garbage passwords under a null and a 32-byte nonce.
+fn c16_server_grid(rng: &mut Rng) -> Vec<Value> {
+    let mut out = Vec::new();
     for b in BITS {
-        match load_ident("crA", b) {
-            Ok(i) => ids.push(i),
-            Err(e) => {
-                rep.inconclusive(e);
-                return;
+        for p in PADDINGS {
+            for g in c16_grid(b, p.0, rng) {
+                let nonce = hexs(&g["nonce_hex"]);
+                let name = g["class"].as_str().unwrap_or("").rsplit('|').next().unwrap_or("").to_string();
+                let alg = alg_for_padding(p.0);
+                let shape = format!("{}-{}", g["kind"].as_str().unwrap_or(""), name);
+                out.push(srv_case(&b.to_string(), b, "unset", "c16user", alg, "server", Some(&nonce), g.clone(), &shape));
+                out.push(srv_case("none", b, "unset", "c16user", alg, "other", Some(&nonce), g.clone(), &shape));
             }
         }
     }
-    let keys = C16Keys { ids };
+    let n32 = rng.bytes(32);
+    let other32 = {
+        let mut v = n32.clone();
+        v[31] ^= 0x01;
+        v
+    };
+    for key in SRV_KEYS {
+        let bits: u32 = key.parse().unwrap_or(2048);
+        let ks = bits as usize / 8;
+        let to_own = if key == "none" { "other" } else { "server" };
+        for (endpoint, _) in SRV_ENDPOINTS {
+            for (alg, _, alg_pad) in SRV_ALGS {
+                let pad = alg_pad.unwrap_or("oaep-sha1");
+                for nonce in [None, Some(n32.as_slice())] {
+                    let nb: &[u8] = nonce.unwrap_or(&[]);
+                    let wrong_nonce: &[u8] = if nonce.is_some() { &other32 } else { &n32 };
+                    let mut add = |to: &str, payload: Value, shape: &str| out.push(srv_case(key, bits, endpoint, "c16user", alg, to, nonce, payload, shape));
+                    add(to_own, bytes_payload(None), "bytes-null");
+                    add(to_own, bytes_payload(Some(&[])), "bytes-empty");
+                    add(to_own, bytes_payload(Some(b"secret")), "bytes-right-password");
+                    add(to_own, bytes_payload(Some(b"Secret")), "bytes-wrong-password");
+                    add(to_own, bytes_payload(Some(&[0xff, 0xfe, 0x80])), "bytes-not-utf8");
+                    add(to_own, bytes_payload(Some(&vec![0x5au8; 100])), "bytes-100");
+                    add(to_own, bytes_payload(Some(&rng.bytes(ks))), "bytes-one-block");
+                    for p in PADDINGS {
+                        add(to_own, enc_payload(b"secret", nb, p.0, None), if p.0 == pad { "enc-right" } else { "enc-right-other-padding" });
+                    }
+                    add(to_own, enc_payload(b"secret", wrong_nonce, pad, None), "enc-wrong-nonce");
+                    add(to_own, enc_payload(b"Secret", nb, pad, None), "enc-wrong-password");
+                    add("other", enc_payload(b"secret", nb, pad, None), "enc-other-certificate");
+                    add(to_own, enc_payload(b"secret", nb, pad, Some("drop-last-byte")), "enc-tampered");
+                }
+            }
+        }
+        // the other users, an unknown one and a null user name
+        for (alg, _, alg_pad) in SRV_ALGS {
+            let pad = alg_pad.unwrap_or("pkcs1");
+            for user in ["c16empty", "c16uni", "mallory", "<null>"] {
+                let right = SRV_USERS.iter().find(|u| u.1 == user).map(|u| u.2).unwrap_or("secret");
+                let mut add = |payload: Value, shape: &str| out.push(srv_case(key, bits, "unset", user, alg, to_own, Some(&n32), payload, shape));
+                add(bytes_payload(Some(right.as_bytes())), "user-bytes-right-password");
+                add(enc_payload(right.as_bytes(), &n32, pad, None), "user-enc-right");
+                add(enc_payload(b"not-the-password", &n32, pad, None), "user-enc-wrong-password");
+            }
+        }
+    }
+    out
+}
+
+fn c16_server_random_case(rng: &mut Rng) -> Value {
+    let key = *rng.pick(&["none", "none", "1024", "1024", "2048", "2048", "4096"]);
+    let bits: u32 = key.parse().unwrap_or(*rng.pick(&[1024u32, 2048, 2048, 4096]));
+    let ks = bits as usize / 8;
+    let endpoint = rng.pick(&SRV_ENDPOINTS).0;
+    let user = *rng.pick(&["c16user", "c16user", "c16empty", "c16uni", "c16uni", "mallory"]);
+    let right: &str = SRV_USERS.iter().find(|u| u.1 == user).map(|u| u.2).unwrap_or("secret");
+    let alg = match rng.below(10) {
+        0 => SRV_ALGS[0],
+        1 => SRV_ALGS[1],
+        2 => SRV_ALGS[5],
+        _ => SRV_ALGS[2 + rng.usize(3)],
+    };
+    let pad = if rng.chance(3, 4) { alg.2.unwrap_or(PADDINGS[rng.usize(3)].0) } else { PADDINGS[rng.usize(3)].0 };
+    let nonce: Option<Vec<u8>> = if rng.chance(1, 10) {
+        None
+    } else {
+        let nl = nonce_len_gen(rng);
+        Some(nonce_gen(rng, nl))
+    };
+    let nb: Vec<u8> = nonce.clone().unwrap_or_default();
+    let to = if key == "none" || rng.chance(1, 6) { "other" } else { "server" };
+    let password: Vec<u8> = match rng.below(8) {
+        0..=4 => right.as_bytes().to_vec(),
+        5 => {
+            let n = rng.usize(40);
+            let st = rng.below(5);
+            password_bytes(rng, n, st).into_bytes()
+        }
+        6 => {
+            // aimed at a block boundary of the plaintext
+            let blk = ks - overhead_of(pad);
+            let k = 1 + rng.usize(2);
+            let total = (k * blk) as i64 + rng.range(-1, 1);
+            let n = (total - 4 - nb.len() as i64).max(0) as usize;
+            password_bytes(rng, n, 0).into_bytes()
+        }
+        _ => format!("{}x", right).into_bytes(),
+    };
+    let (payload, shape): (Value, &str) = match rng.below(20) {
+        0..=8 => {
+            let enc_nonce = if rng.chance(3, 5) {
+                nb.clone()
+            } else {
+                let w = wrong_nonces(rng, &password, &nb, false);
+                w[rng.usize(w.len())].clone()
+            };
+            let op: Option<String> = if rng.chance(2, 3) {
+                None
+            } else {
+                Some(match rng.below(9) {
+                    0 => "drop-first-byte".to_string(),
+                    1 => "drop-last-block".to_string(),
+                    2 => "dup-last-block".to_string(),
+                    3 => "swap-first-two".to_string(),
+                    4 => "zero-last-block".to_string(),
+                    5 => "ff-last-block".to_string(),
+                    6 => "drop-last-byte".to_string(),
+                    7 => "append-byte".to_string(),
+                    _ => format!("flip:{}:{}", rng.usize(4 * ks), 1u8 << rng.below(8)),
+                })
+            };
+            (enc_payload(&password, &enc_nonce, pad, op.as_deref()), "random-enc")
+        }
+        9..=11 => {
+            let l = match rng.below(8) {
+                0 => 0,
+                1 => 1,
+                2 => ks - 1,
+                3 => ks,
+                4 => ks + 1,
+                5 => 2 * ks,
+                _ => rng.usize(3 * ks + 8),
+            };
+            let b = match rng.below(4) {
+                0 => vec![0u8; l],
+                1 => vec![0xffu8; l],
+                _ => rng.bytes(l),
+            };
+            (bytes_payload(Some(&b)), "random-bytes")
+        }
+        12..=14 => (if rng.chance(1, 8) { bytes_payload(None) } else { bytes_payload(Some(&password)) }, "random-plain"),
+        _ => {
+            // a crafted plaintext: length prefix off, tail not the nonce, too short for the nonce
+            let mut body = password.clone();
+            match rng.below(6) {
+                0 => body.extend_from_slice(&nb[..nb.len() / 2]),
+                1 => {}
+                _ => body.extend_from_slice(&nb),
+            }
+            let claimed: u32 = match rng.below(8) {
+                0 => body.len().saturating_sub(1) as u32,
+                1 => body.len() as u32 + 1,
+                2 => 0,
+                3 => u32::MAX,
+                4 => body.len() as u32 + 4,
+                _ => body.len() as u32,
+            };
+            let mut plain = claimed.to_le_bytes().to_vec();
+            plain.extend_from_slice(&body);
+            if rng.chance(1, 5) {
+                let keep = 1 + rng.usize(plain.len().min(8));
+                plain.truncate(keep);
+            }
+            let pieces: Vec<Vec<u8>> = if plain.len() > 2 && rng.chance(1, 5) {
+                let cut = 1 + rng.usize(plain.len() - 1);
+                vec![plain[..cut].to_vec(), plain[cut..].to_vec()]
+            } else {
+                vec![plain]
+            };
+            (json!({"kind": "crafted", "padding": pad, "pieces_hex": pieces.iter().map(|p| hex(p)).collect::<Vec<_>>(), "empty_block_prefix": false}), "random-crafted")
+        }
+    };
+    srv_case(key, bits, endpoint, user, alg.0, to, nonce.as_deref(), payload, shape)
+}
+
+/// What was put into the password field of the token, and what the harness knows about it
+struct SrvPayload {
+    bytes: ByteString,
+    /// the plaintext the holder of the target key recovers under `padding` (None: not made by encryption)
+    plain: Option<Vec<u8>>,
+    padding: Option<String>,
+    regular: bool,
+    tampered: bool,
+    class: String,
+}
+
+fn srv_payload(p: &Value, target: &Ident, right: Option<&str>, nonce: &[u8]) -> Result<SrvPayload, String> {
+    let ks = target.bits as usize / 8;
+    let size_class = |bs: &ByteString| {
+        let len = bs.as_ref().len();
+        if bs.is_null() {
+            "null".to_string()
+        } else if len == 0 {
+            "empty".into()
+        } else if len % ks == 0 {
+            format!("{}blocks", (len / ks).min(4))
+        } else if len < ks {
+            "partial-block".into()
+        } else {
+            "blocks+partial".into()
+        }
+    };
+    let kind = p["p"].as_str().or_else(|| p["kind"].as_str()).unwrap_or("");
+    match kind {
+        "bytes" | "raw" => {
+            let field = if kind == "bytes" { &p["hex"] } else { &p["ct_hex"] };
+            let bytes = if field.is_null() { ByteString::null() } else { ByteString::from(hexs(field)) };
+            let text = match std::str::from_utf8(bytes.as_ref()) {
+                Ok(t) if Some(t) == right => "right-password",
+                Ok(_) => "utf8",
+                Err(_) => "not-utf8",
+            };
+            let class = format!("bytes|{}|{}", size_class(&bytes), text);
+            Ok(SrvPayload { bytes, plain: None, padding: None, regular: true, tampered: false, class })
+        }
+        "encrypt" => {
+            let pad_name = p["padding"].as_str().unwrap_or("pkcs1").to_string();
+            let pw_bytes = hexs(&p["password_hex"]);
+            let pw = String::from_utf8(pw_bytes.clone()).map_err(|_| "password of an encrypt payload is not UTF-8".to_string())?;
+            let enc_nonce = hexs(&p["enc_nonce_hex"]);
+            let secret = match catch(|| legacy_password_encrypt(&pw, &enc_nonce, &target.cert, padding_of(&pad_name))) {
+                Ok(Ok(s)) => s,
+                Ok(Err(s)) => return Err(format!("legacy_password_encrypt failed: {}", s)),
+                Err(pi) => return Err(format!("legacy_password_encrypt panicked: {}", pi.msg)),
+            };
+            let mut plain = ((pw_bytes.len() + enc_nonce.len()) as u32).to_le_bytes().to_vec();
+            plain.extend_from_slice(&pw_bytes);
+            plain.extend_from_slice(&enc_nonce);
+            let mut ct = secret.as_ref().to_vec();
+            let nblocks = ct.len() / ks;
+            let op = p["ct_op"].as_str();
+            if let Some(op) = op {
+                if !apply_ct_op(&mut ct, op, ks) {
+                    return Err(format!("unknown ciphertext operation {:?}", op));
+                }
+            }
+            let rel = if enc_nonce == nonce {
+                "same-nonce"
+            } else if plain.len() >= 4 + nonce.len() && plain.ends_with(nonce) {
+                "suffix-nonce"
+            } else if enc_nonce.len() == nonce.len() {
+                "other-nonce-same-length"
+            } else if enc_nonce.len() < nonce.len() {
+                "shorter-nonce"
+            } else {
+                "longer-nonce"
+            };
+            let class = format!("enc|{}|pw:{}|{}|op:{}|blocks{}", pad_name,
+                if Some(pw.as_str()) == right { "right".to_string() } else { pw_style(&pw_bytes).to_string() }, rel,
+                op.map(|o| o.split(':').next().unwrap_or("")).unwrap_or("none"), nblocks.min(4));
+            Ok(SrvPayload { bytes: ByteString::from(ct), plain: Some(plain), padding: Some(pad_name), regular: true, tampered: op.is_some(), class })
+        }
+        "crafted" => {
+            let pad_name = p["padding"].as_str().unwrap_or("pkcs1").to_string();
+            let pieces: Vec<Vec<u8>> = p["pieces_hex"].as_array().map(|a| a.iter().map(hexs).collect()).unwrap_or_default();
+            let empty_first = p["empty_block_prefix"].as_bool().unwrap_or(false);
+            let regular = pieces.len() == 1 && !empty_first;
+            let (ct, plain) = encrypt_pieces(target, &pad_name, &pieces, empty_first)?;
+            let (_, _, _, root) = plaintext_shape(&plain, nonce);
+            let class = format!("crafted|{}|{}|{}", pad_name, root, if regular { "regular" } else { "irregular" });
+            Ok(SrvPayload { bytes: ByteString::from(ct), plain: Some(plain), padding: Some(pad_name), regular, tampered: false, class })
+        }
+        other => Err(format!("unknown payload kind {:?}", other)),
+    }
+}
+
+fn c16_server_case(case: &Value, keys: &C16Keys, servers: &mut C16Servers, rep: &mut Report) {
+    let key = case["key"].as_str().unwrap_or("none").to_string();
+    let has_key = key != "none";
+    let bits = case["bits"].as_u64().unwrap_or(2048);
+    let endpoint = case["endpoint"].as_str().unwrap_or("unset").to_string();
+    let user = case["user"].as_str().unwrap_or("c16user").to_string();
+    let alg_name = case["alg"].as_str().unwrap_or("null").to_string();
+    let to_server = has_key && case["to"].as_str() == Some("server");
+    let nonce_null = case["nonce_hex"].is_null();
+    let nonce = if nonce_null { Vec::new() } else { hexs(&case["nonce_hex"]) };
+    let (alg_uri, alg_pad) = match SRV_ALGS.iter().find(|a| a.0 == alg_name) {
+        Some(a) => (a.1, a.2),
+        None => {
+            rep.inconclusive(format!("unknown algorithm name {:?} in a server case", alg_name));
+            return;
+        }
+    };
+    let srv = match servers.get(&key, keys) {
+        Ok(s) => s,
+        Err(e) => {
+            rep.inconclusive(format!("cannot set the server up: {}", e));
+            return;
+        }
+    };
+    // the certificate the client encrypts for: the server's own, or one whose key the server does not have
+    let target = if to_server { keys.get(bits) } else if has_key { keys.other(bits) } else { keys.get(bits) };
+    let configured: Option<&(&str, &str, &str)> = SRV_USERS.iter().find(|u| u.1 == user);
+    let right: Option<&str> = configured.map(|u| u.2);
+    let payload = match srv_payload(&case["payload"], target, right, &nonce) {
+        Ok(p) => p,
+        Err(e) => {
+            rep.inconclusive(format!("cannot build the password field of a server case: {}", e));
+            return;
+        }
+    };
+    let policy_id = srv.policy_ids.get(&endpoint).cloned().unwrap_or_else(UAString::null);
+    let token = UserNameIdentityToken {
+        policy_id,
+        user_name: if user == "<null>" { UAString::null() } else { UAString::from(user.as_str()) },
+        password: payload.bytes.clone(),
+        encryption_algorithm: match alg_uri {
+            None => UAString::null(),
+            Some(u) => UAString::from(u),
+        },
+    };
+    let token = ExtensionObject::from_encodable(ObjectId::UserNameIdentityToken_Encoding_DefaultBinary, &token);
+    let request = ActivateSessionRequest {
+        request_header: RequestHeader::dummy(),
+        client_signature: SignatureData { algorithm: UAString::null(), signature: ByteString::null() },
+        client_software_certificates: None,
+        locale_ids: None,
+        user_identity_token: token.clone(),
+        user_token_signature: SignatureData { algorithm: UAString::null(), signature: ByteString::null() },
+    };
+    let server_nonce = if nonce_null { ByteString::null() } else { ByteString::from(nonce.clone()) };
+    let url = srv_url(&endpoint);
+
+    // the reference: which password a server that follows the property sees in this token, if any
+    let (wf, room, tail, root) = match &payload.plain {
+        Some(plain) => plaintext_shape(plain, &nonce),
+        None => (false, false, false, "not-a-ciphertext"),
+    };
+    let body_is_right = match (&payload.plain, right) {
+        (Some(plain), Some(r)) if room && tail => &plain[4..plain.len() - nonce.len()] == r.as_bytes(),
+        _ => false,
+    };
+    // why Ok would be wrong (None = Ok is allowed)
+    let deny: Option<&str> = if right.is_none() {
+        Some("unknown-user")
+    } else {
+        match alg_name.as_str() {
+            "null" | "empty" => {
+                if payload.bytes.as_ref() == right.unwrap_or("").as_bytes() { None } else { Some("wrong-plain-password") }
+            }
+            "unknown" => Some("unknown-algorithm"),
+            _ => {
+                if !has_key {
+                    Some("server-has-no-private-key")
+                } else if payload.plain.is_none() {
+                    Some("not-a-ciphertext")
+                } else if !to_server {
+                    Some("encrypted-for-another-certificate")
+                } else if payload.padding.as_deref() != alg_pad {
+                    Some("algorithm-names-another-padding")
+                } else if !room {
+                    Some("no-room-for-nonce")
+                } else if !tail {
+                    Some("encrypted-for-another-nonce")
+                } else if !body_is_right {
+                    Some("wrong-password")
+                } else {
+                    None
+                }
+            }
+        }
+    };
+    // must Ok: what a client makes with the right credentials, untouched
+    let must_ok = deny.is_none() && !payload.tampered && match alg_name.as_str() {
+        "null" => !payload.bytes.is_null(),
+        "empty" => false,
+        _ => wf && payload.regular,
+    };
+    let tok_class = match alg_name.as_str() {
+        "null" => "plain-password",
+        "empty" => "algorithm-empty-string",
+        _ => "algorithm-set",
+    };
+    let srv_class = if has_key { "server-with-key" } else { "server-without-key" };
+    let class = format!("srv|key:{}|ep:{}|alg:{}|user:{}|{}|n{}|{}", key, endpoint, alg_name,
+        match user.as_str() { "c16user" => "configured", "c16empty" => "empty-password", "c16uni" => "non-ascii-password", "<null>" => "null", _ => "unknown" },
+        payload.class, if nonce_null { "null".to_string() } else { len_class(nonce.len()) },
+        if to_server { "for-server-certificate" } else { "for-other-certificate" });
+
+    let r = catch(|| {
+        let st = srv.state.read();
+        st.authenticate_endpoint(&request, &url, SecurityPolicy::None, MessageSecurityMode::None, &token, &server_nonce)
+    });
+    rep.case(&class);
+    rep.count("server_authentications", 1);
+    rep.count(&format!("server_authentications_{}", srv_class.trim_start_matches("server-").replace('-', "_")), 1);
+    if !has_key && tok_class == "algorithm-set" {
+        rep.count("server_without_key_given_encrypted_token", 1);
+    }
+    let describe = || {
+        format!("server {} private key, endpoint /{} (None/None), user {:?}, encryptionAlgorithm {:?}, password field {} ({} bytes), server nonce {}",
+            if has_key { format!("with its own {}-bit", key) } else { "without a".to_string() }, endpoint, user, alg_uri, payload.class,
+            payload.bytes.as_ref().len(), if nonce_null { "null".to_string() } else { format!("{} bytes", nonce.len()) })
+    };
+    match r {
+        Err(p) => {
+            rep.count("server_panic", 1);
+            let what = if !has_key {
+                tok_class.to_string()
+            } else {
+                match alg_name.as_str() {
+                    "null" | "empty" => tok_class.to_string(),
+                    "unknown" => "unknown-algorithm".to_string(),
+                    _ => match &payload.plain {
+                        Some(_) if payload.tampered => "tampered-ciphertext".to_string(),
+                        Some(_) if !to_server => "encrypted-for-another-certificate".to_string(),
+                        Some(_) if payload.padding.as_deref() != alg_pad => "algorithm-names-another-padding".to_string(),
+                        Some(_) => root.to_string(),
+                        None => if payload.bytes.as_ref().len() % (bits as usize / 8) == 0 { "ciphertext-whole-blocks".to_string() } else { "ciphertext-length-not-multiple-of-key-size".to_string() },
+                    },
+                }
+            };
+            rep.violation(format!("authenticate-panic|{}|{}|{}", srv_class, what, p.signature()),
+                format!("ServerState::authenticate_endpoint panicked instead of returning a status: {} at {}:{}; {}", p.msg, p.file, p.line, describe()), case.clone());
+        }
+        Ok(Ok(id)) => {
+            rep.count("server_ok", 1);
+            if let Some(why) = deny {
+                rep.violation(format!("authenticate-accepted|{}|{}|{}", srv_class, tok_class, why),
+                    format!("authenticate_endpoint returned Ok({:?}) although the token cannot carry the user's password ({}); {}", id, why, describe()), case.clone());
+            } else if Some(id.as_str()) != configured.map(|u| u.0) {
+                rep.violation(format!("authenticate-accepted|{}|{}|as-another-user", srv_class, tok_class),
+                    format!("authenticate_endpoint returned Ok({:?}) for user {:?}; {}", id, user, describe()), case.clone());
+            } else if alg_name == "empty" {
+                rep.count("server_empty_algorithm_read_as_plain", 1);
+            } else if !must_ok {
+                rep.count("server_ok_not_demanded", 1);
+            }
+        }
+        Ok(Err(s)) => {
+            rep.count(&format!("server_err_{}", status_name(s)), 1);
+            if must_ok {
+                if alg_name == "null" {
+                    // the plain text control: not this property's business, but without it nothing below means anything
+                    rep.inconclusive(format!("server refuses the right plain text password with {}; {}", s, describe()));
+                } else {
+                    rep.violation(format!("authenticate-refused|valid-encrypted-password|{}|{}|{}", srv_class, alg_name, status_name(s)),
+                        format!("a password encrypted for the server certificate and the presented nonce, labelled with the algorithm of its padding, was refused with {}; {}", s, describe()), case.clone());
+                }
+            }
+        }
+    }
+}
+
+pub fn c16(args: &Args, rep: &mut Report) {
+    let mut ids = Vec::new();
+    let mut others = Vec::new();
+    for b in BITS {
+        for (name, dst) in [("crA", &mut ids), ("crB", &mut others)] {
+            match load_ident(name, b) {
+                Ok(i) => dst.push(i),
+                Err(e) => {
+                    rep.inconclusive(e);
+                    return;
+                }
+            }
+        }
+    }
+    let keys = C16Keys { ids, others };
+    let mut servers = C16Servers::new();
+    let mut run = |case: &Value, rep: &mut Report| {
+        if case["kind"].as_str() == Some("server") {
+            c16_server_case(case, &keys, &mut servers, rep)
+        } else {
+            c16_case(case, &keys, rep)
+        }
+    };
     if let Some(path) = &args.replay {
         match read_replay(path) {
             Some(case) => {
                 rep.begin_case(&case);
-                c16_case(&case, &keys, rep);
+                run(&case, rep);
             }
             None => rep.inconclusive("cannot read replay file"),
         }
@@ -829,10 +1496,24 @@ pub fn c16(args: &Args, rep: &mut Report) {
     for _ in 0..n {
         cases.push(c16_random_case(&mut rng, args.thorough()));
     }
+    // the same inputs through ServerState::authenticate_endpoint of servers with and without a private key:
+    // a fixed grid split over the shards (a tenth of it in instrumented passes), then seeded random tokens
+    let mut srng = Rng::new(args.seed ^ 0xC16_5E47);
+    let stride = if instrumented().is_some() { 10 } else { 1 };
+    for (i, c) in c16_server_grid(&mut srng).into_iter().enumerate() {
+        if i % args.shards == args.shard && (i / args.shards) % stride == 0 {
+            cases.push(c);
+        }
+    }
+    let mut rng2 = Rng::new(args.seed ^ 0xC16_5E48 ^ ((args.shard as u64) << 32));
+    let n = args.budget(3200, 48000);
+    for _ in 0..n {
+        cases.push(c16_server_random_case(&mut rng2));
+    }
     for case in cases {
         rep.begin_case(&case);
         rep.sample(case.clone());
-        c16_case(&case, &keys, rep);
+        run(&case, rep);
     }
 }
 
